@@ -1,0 +1,130 @@
+//! Verification-only wrappers around the TLS name codec and certificate verifiers.
+//!
+//! Only compiled with the `verif-hooks` feature; not part of the public API.
+
+use std::sync::Arc;
+
+use iroh_base::{EndpointId, SecretKey};
+use rustls::{
+    DigitallySignedStruct,
+    client::danger::ServerCertVerifier,
+    pki_types::{CertificateDer, ServerName, UnixTime},
+    server::danger::ClientCertVerifier,
+};
+
+/// [`crate::tls::name::encode`].
+pub fn name_encode(endpoint_id: EndpointId) -> String {
+    crate::tls::name::encode(endpoint_id)
+}
+
+/// [`crate::tls::name::decode`].
+pub fn name_decode(name: &str) -> Option<EndpointId> {
+    crate::tls::name::decode(name)
+}
+
+/// The raw Ed25519 signature verifier handed to rustls for TLS 1.3 handshake signatures.
+pub fn ed25519_verify(public_key: &[u8], message: &[u8], signature: &[u8]) -> bool {
+    crate::tls::verif_ed25519_verify(public_key, message, signature)
+}
+
+/// The certificate verifiers exactly as an endpoint's TLS configuration holds them.
+#[derive(Debug)]
+pub struct Verifiers {
+    server: Arc<dyn ServerCertVerifier>,
+    client: Arc<dyn ClientCertVerifier>,
+}
+
+impl Verifiers {
+    /// Takes the verifiers out of a freshly built `TlsConfig`.
+    pub fn new(secret_key: SecretKey, provider: Arc<rustls::crypto::CryptoProvider>) -> Self {
+        let config = crate::tls::TlsConfig::new(secret_key, 8, provider);
+        Self {
+            server: config.verif_server_verifier(),
+            client: config.verif_client_verifier(),
+        }
+    }
+
+    /// `ServerCertVerifier::verify_server_cert` of the verifier used when dialing.
+    pub fn verify_server_cert(
+        &self,
+        end_entity: &[u8],
+        intermediates: &[Vec<u8>],
+        server_name: &ServerName<'_>,
+    ) -> Result<(), rustls::Error> {
+        let end_entity = CertificateDer::from(end_entity);
+        let intermediates: Vec<CertificateDer<'_>> = intermediates
+            .iter()
+            .map(|c| CertificateDer::from(c.as_slice()))
+            .collect();
+        self.server
+            .verify_server_cert(
+                &end_entity,
+                &intermediates,
+                server_name,
+                &[],
+                UnixTime::since_unix_epoch(std::time::Duration::from_secs(1_700_000_000)),
+            )
+            .map(|_| ())
+    }
+
+    /// `ClientCertVerifier::verify_client_cert` of the verifier used when accepting.
+    pub fn verify_client_cert(
+        &self,
+        end_entity: &[u8],
+        intermediates: &[Vec<u8>],
+    ) -> Result<(), rustls::Error> {
+        let end_entity = CertificateDer::from(end_entity);
+        let intermediates: Vec<CertificateDer<'_>> = intermediates
+            .iter()
+            .map(|c| CertificateDer::from(c.as_slice()))
+            .collect();
+        self.client
+            .verify_client_cert(
+                &end_entity,
+                &intermediates,
+                UnixTime::since_unix_epoch(std::time::Duration::from_secs(1_700_000_000)),
+            )
+            .map(|_| ())
+    }
+
+    /// `verify_tls13_signature` of the server certificate verifier (`server == true`) or of
+    /// the client certificate verifier.
+    pub fn verify_tls13_signature(
+        &self,
+        server: bool,
+        message: &[u8],
+        cert: &[u8],
+        dss: &DigitallySignedStruct,
+    ) -> Result<(), rustls::Error> {
+        let cert = CertificateDer::from(cert);
+        if server {
+            self.server
+                .verify_tls13_signature(message, &cert, dss)
+                .map(|_| ())
+        } else {
+            self.client
+                .verify_tls13_signature(message, &cert, dss)
+                .map(|_| ())
+        }
+    }
+
+    /// `verify_tls12_signature` of both verifiers (must always refuse).
+    pub fn verify_tls12_signature(
+        &self,
+        server: bool,
+        message: &[u8],
+        cert: &[u8],
+        dss: &DigitallySignedStruct,
+    ) -> Result<(), rustls::Error> {
+        let cert = CertificateDer::from(cert);
+        if server {
+            self.server
+                .verify_tls12_signature(message, &cert, dss)
+                .map(|_| ())
+        } else {
+            self.client
+                .verify_tls12_signature(message, &cert, dss)
+                .map(|_| ())
+        }
+    }
+}
